@@ -1,11 +1,41 @@
 /- DriverExt.lean — session state and dispatch (grows with the model). -/
 import GV.Driver
+import GV.SpecText
 namespace GV
 
 structure Session where
   dummy : Nat := 0
 
 def Session.new : Session := {}
+
+/-- `spec.decode v=5 b=x..`: reference decoding of a client-to-server byte stream -/
+def cmdSpecDecode (head : String) : String :=
+  let (_, kv) := splitKv head
+  match versionOf kv, kv.bytes "b" with
+  | some v, some b =>
+    let bs := b.getD []
+    let (ps, left) := Spec.decodeStream v (bs.length + 1) bs
+    s!"res=ok n={ps.length} left={left}" ++ String.join (ps.map (fun p => " | " ++ Spec.printClient p))
+  | _, _ => "res=bad-request"
+
+/-- `spec.encode v=5 short=0 | s.<kind> ...`: reference encoding of a server packet, its validity per
+    the standard and the library-level content a conformant client must deliver -/
+def cmdSpecEncode (head payload : String) : String :=
+  let (_, kv) := splitKv head
+  match versionOf kv, kv.bool "short", Spec.parseServer payload with
+  | some v, some short, some sp =>
+    s!"res=ok valid={b01 (sp.valid v)} bytes={hexOf (Spec.encodeServer v (short.getD false) sp)} | {printPacket (Spec.interp v sp)}"
+  | _, _, _ => "res=bad-request"
+
+/-- `spec.canon v=5 skip=.. alias=.. | <packet>`: the standard-level view of an outbound packet -/
+def cmdSpecCanon (head payload : String) : String :=
+  let (_, kv) := splitKv head
+  match versionOf kv, resolutionOf kv, parsePacket payload with
+  | some v, some r, some p =>
+    (match Spec.canon v r p with
+     | some c => "res=ok | " ++ Spec.printClient c
+     | none => "res=none")
+  | _, _, _ => "res=bad-request"
 
 def dispatch (st : Session) (line : String) : Session × String :=
   let (verb, head, payload) := splitRequest line
@@ -15,6 +45,9 @@ def dispatch (st : Session) (line : String) : Session × String :=
   | "vli.size" => (st, cmdVliSize head)
   | "vli.dec" => (st, cmdVliDec head)
   | "table" => (st, cmdTable head)
+  | "spec.decode" => (st, cmdSpecDecode head)
+  | "spec.encode" => (st, cmdSpecEncode head payload)
+  | "spec.canon" => (st, cmdSpecCanon head payload)
   | "roundtrip" => (st, match parsePacket payload with | some p => printPacket p | none => "res=bad-request")
   | _ => (st, "res=unmodelled")
 
